@@ -250,7 +250,8 @@ def _self_evidence(cx, site):
     g = cx.pg(fn)
     # (a)
     def member(l):
-        return l[0] == "is" and l[2] is False and l[1][0] == "call" and l[1][1].endswith("::all") and any(x[0] == "closure" for x in l[1][2])
+        from ..idioms import self_member_lit
+        return self_member_lit(cx.prog, l) is not None
     def restored(bi):
         t = fn.body.blocks[bi]["term"]
         return t["k"] == "call" and "const" in t["func"] and "fn" in t["func"]["const"] and strip_generics(t["func"]["const"]["fn"]["path"]).endswith("confchange::restore::restore")
